@@ -157,8 +157,11 @@ deriving Repr, Inhabited, DecidableEq
 
 def isDirText (t : List Char) : Bool := category t == .cppDirective
 
+/-- a logical line assembled from statement lines is yielded unless blank, and is NEVER a directive
+    (`curr_line.physical_update(..., statement=True)`: the repair of F-C17-2 — before it the category of the joined buffer
+    decided, so a statement beginning with lone `&` lines and continuing with `&#...` read as a directive) -/
 def emitLL (cur : OSL) (lines : List Nat) : List LL :=
-  if category cur.parts == .blank then [] else [⟨lines, cur.parts, isDirText cur.parts⟩]
+  if category cur.parts == .blank then [] else [⟨lines, cur.parts, false⟩]
 
 /-- the `while True` loop of `fortran_file_source` over the C logical lines, and the code after it -/
 def fLoop (s : FSt) (cur : OSL) (lines : List Nat) : List CL → Except FErr (List LL)
